@@ -20,7 +20,7 @@ CLAIMED = {
              technique='bounded dynamic symbolic execution with labelled symbolic random streams (reachability of a forbidden draw / construction decided per path by z3-checked feasibility), replay on the real code'),
  'C06': dict(text='randmio_und_signed / randmio_dir_signed run on fully symbolic signed matrices (every off-diagonal entry an unconstrained real, the randint(n**4) draw symbolic): per-node positive/negative in/out degree, signed weight multisets, empty diagonal and symmetry are proved on every path; null_model_*_sign run on enumerated signed matrices with symbolic draws and a recording np.corrcoef stub.',
              ref='DESIGN.md section 4 C06'),
- 'C13': dict(text='For 80+ public functions x enumerated argument templates x option variants, every array argument carries an unconstrained symbolic diagonal; after the call (return or exception) z3 proves cell by cell that the argument still holds its original terms on every explored path (path cap per case); a concrete non-zero diagonal variant backs up functions whose dependence on the diagonal is non-linear.',
+ 'C13': dict(text='For 80+ public functions x enumerated argument templates x option variants, every array argument carries an unconstrained symbolic diagonal; after the call (return or exception) z3 proves cell by cell that the argument still holds its original terms on every explored path (path cap per case); a concrete non-zero diagonal variant backs up functions whose dependence on the diagonal is non-linear. pagerank_centrality runs with np.linalg.solve stubbed (arbitrary positive vector).',
              ref='DESIGN.md section 4 C13'),
  'C03': dict(text='distance_bin, reachdist, breadthdist, efficiency_bin and charpath on symbolic adjacency bits (all directed graphs on <= 4 nodes in one exploration) against Boolean k-step reachability; distance_wei, distance_wei_floyd (None/inv/log), efficiency_wei and rout_efficiency with every cell a symbolic length >= 0 (support and ties symbolic) against the minimum over all enumerated simple paths: distances, infinity iff unreachable, reach flags, zero diagonal, hop counts of some shortest path, mean and mean inverse distance.',
              ref='DESIGN.md section 4 C03'),
